@@ -10,15 +10,18 @@ from . import common
 from . import lib_yamlmerge as L
 from .lib_yamlmerge import Q, Bad
 
-PROPS = ['PGA.Props.C12']
-GEN = ['YamlUnits']
+PROPS = ['PGA.Props.C12', 'PGA.Props.C12Units']
+GEN = ['YamlUnits', 'Chars', 'Units']
 OBLIGATIONS = ['PGA.Yaml.' + t for t in [
     'C12_tab_schema_group', 'C12_tab_schema_incomplete', 'C12_tab_defaults', 'C12_tab_kelvin', 'C12_tab_gas_constant',
     'C12_tab_units_positive', 'C12_tab_property_sets',
     'C12_presentation_independent', 'C12_loads_plain', 'C12_same_quantity_same_load', 'C12_zero_like_any_value',
     'C12_missing_unit_rejected', 'C12_missing_unit_entry_rejected', 'C12_wrong_dimension_never_plain',
     'C12_wrong_dimension_cp_never_plain',
-    'C12_wrong_dimension_temperature_rejected', 'C12_F12_old_shortcut_not_plain']]
+    'C12_wrong_dimension_temperature_rejected', 'C12_F12_old_shortcut_not_plain',
+    # C12 <- C10 (PGA/Props/C12Units.lean): every row of the loader model's unit table is what the C10 model of eval_qty computes
+    'C12_tab_units_from_units_model', 'C12_tab_units_exact', 'C12_tab_rounded_units_minimal', 'C12_tab_gas_constant_from_units_model',
+    'C12_tab_units_from_si_reference', 'C12_tab_units_si_exact', 'C12_tab_gas_constant_from_si_reference']]
 RULE = ('a case = one synthetic library (1-4 groups; per group reference temperature given/defaulted, reference enthalpy and '
         'entropy present/absent/zero/negative, 0-8 heat-capacity points incl. zeros, range present/absent) written in one unit '
         'presentation (file-level default units for any subset of the four kinds, per-value explicit unit strings with '
@@ -26,8 +29,9 @@ RULE = ('a case = one synthetic library (1-4 groups; per group reference tempera
         'injected fault (dimensional value with no unit available, unit of the wrong dimension, non-quantity string, '
         'inconsistent range). Non-trivial: at least one dimensional value present. Distinct = distinct (data, presentation).')
 ASSUMPTIONS = ['A-yaml: PyYAML maps the generated documents to the obvious trees (re-checked on every written file)',
-               'unit strings evaluate to the (SI factor, dimension) pairs dumped by the translator from the live pgradd.Units '
-               '(the unit-expression parser itself is the C10 model; every row of PGA.Gen.YamlUnits is a fact C10 should reproduce)',
+               'unit strings evaluate to the (SI factor, dimension) pairs dumped by the translator from the live pgradd.Units: no '
+               'longer assumed - every row is re-derived by the kernel from the C10 model of eval_qty over the live unit definitions '
+               '(exactly; five rows up to double rounding) and over the SI reference table (PGA/Props/C12Units.lean)',
                'decimal-literal abstraction: written decimals are read as exact rationals by the model, as nearest doubles by the code']
 TRUSTED = ['modelled, not verified: qty_loader/float_loader/tuple_loader/list_loader (yaml_io/builtins.py), ObjectLoader.__call__ '
            '(yaml_io/schema.py), with_units (Units/helpers.py), Quantity._build/*,/ and in_units (Units/qty.py), '
